@@ -2,6 +2,8 @@
 
 package appdb
 
+import db "github.com/tendermint/tm-db"
+
 // VerifBlockTimes returns the cached (or stored) list of recent block times. Add-only file
 // used by the verification harness (build tag verif).
 func (appDB *AppDB) VerifBlockTimes() []uint64 {
@@ -9,4 +11,12 @@ func (appDB *AppDB) VerifBlockTimes() []uint64 {
 	appDB.mu.Lock()
 	defer appDB.mu.Unlock()
 	return append([]uint64{}, appDB.lastTimeBlocks...)
+}
+
+// VerifWrapDB replaces the application database by f(current database): the harness interposes a
+// wrapper that logs / stops writes (crash injection during Commit).
+func (appDB *AppDB) VerifWrapDB(f func(db.DB) db.DB) {
+	appDB.mu.Lock()
+	defer appDB.mu.Unlock()
+	appDB.db = f(appDB.db)
 }
